@@ -129,7 +129,7 @@ namespace
                     runtime.__logmsg(logmessage::runtime::ArraySizeChanged(frame.diag_info_from_position(), m_size, m_array->size()));
                     m_size = m_array->size();
                 }
-                if (++m_index == m_size)
+                if (++m_index >= m_size)
                 {
                     runtime.context_active().push_value(m_count);
                     return result::ok;
@@ -547,7 +547,7 @@ namespace
                     runtime.__logmsg(logmessage::runtime::ArraySizeChanged(frame.diag_info_from_position(), m_size, m_array->size()));
                     m_size = m_array->size();
                 }
-                if (++m_index == m_size)
+                if (++m_index >= m_size)
                 {
                     return result::ok;
                 }
@@ -683,7 +683,10 @@ namespace
                     {
                         if (res->data<d_boolean, bool>())
                         {
-                            m_out.push_back(m_array->at(m_index));
+                            if (m_index < m_array->size())
+                            { // the element may be gone: the code can shrink the array
+                                m_out.push_back(m_array->at(m_index));
+                            }
                         }
                     }
                     else if (res->empty())
@@ -705,7 +708,7 @@ namespace
                     runtime.__logmsg(logmessage::runtime::ArraySizeChanged(frame.diag_info_from_position(), m_size, m_array->size()));
                     m_size = m_array->size();
                 }
-                if (++m_index == m_size)
+                if (++m_index >= m_size)
                 {
                     runtime.context_active().push_value(m_out);
                     return result::ok;
@@ -917,7 +920,7 @@ namespace
                     runtime.__logmsg(logmessage::runtime::ArraySizeChanged(frame.diag_info_from_position(), m_size, m_array->size()));
                     m_size = m_array->size();
                 }
-                if (++m_index == m_size)
+                if (++m_index >= m_size)
                 {
                     runtime.context_active().push_value(-1);
                     return result::ok;
@@ -1149,7 +1152,7 @@ namespace
                     runtime.__logmsg(logmessage::runtime::ArraySizeChanged(frame.diag_info_from_position(), m_size, m_array->size()));
                     m_size = m_array->size();
                 }
-                if (++m_index == m_size)
+                if (++m_index >= m_size)
                 {
                     runtime.context_active().push_value(m_out);
                     return result::ok;
